@@ -9,7 +9,7 @@ CONSTANTS
   MCN = 3
   MaxLen = 2
   Alphabet = "narrow"
-  Prefits = {"none", "fit", "fitbase"}
+  Prefits = {"none"}
   CfgSel = "all"
   Sample = 0
   Depth = 4
